@@ -287,7 +287,11 @@ def _list_units():
 
 
 def units():
-    return _tract_units() + _desc_units() + _list_units()
+    from pyvc.api import borrow
+    from props import c15
+    # the text-level parsers are abstracted as deterministic functions of text and settings: the package-wide frame 'no store to
+    # process-wide state outside the documented ones' (C15's scan) is what that abstraction rests on, so it is discharged here too
+    return _tract_units() + _desc_units() + _list_units() + borrow([c15._scan_unit()], 'C14')
 
 
 # ======================================================================================================================
